@@ -10,11 +10,13 @@
  *             reopen  written and closed before; reopened RDWR with Hcache on, 1 more element
  *             read    written and closed before; reopened READ, one element read
  *             rdwr    written and closed before; reopened RDWR, one element read (last operation = read)
+ *             ncfull / cfull   ndds 4, all four descriptors used, DD caching off / on (the next descriptor needs a new block)
+ *             ncfull2 / cfull2 the same with two full DD blocks
  *             attached an access record is still attached (Hclose must refuse)
  *             two     opened twice (reference count 2)
  *             twoatt  opened twice, an access record attached through the id being closed (Hclose must refuse)
  *   function  HPseek <off> | HPseekcur 0 | HP_write <n> | HP_read <n> | HIextend_file 0 | HTPsync 0 | HIsync 0 |
- *             Hsync 0 | Hclose 0
+ *             Hsync 0 | Hclose 0 | HTInew_dd_block 0 | HPgetdiskblock <size> | HTIupdate_dd <index in first block>
  * output:     <lineno> fn sc=.. f=.. arg=.. mode=.. k=.. pre=<cur_off>,<last_op>,<end_off>,<cache>,<dirty_dd>,<dirty_end>,<refcount>,<attach>,<vmod>,<open>,<writable>,<own_aid>
  *                      blocks=<off>:<dirty>:<ndds>/... status=<..> ret=<0|-1> trace=<one letter per device call, upper case = failed>
  */
@@ -27,7 +29,7 @@ static void fn_body(const char *path, void *argp)
     unsigned char buf[256];
     armed = 0; recording = 0;
     int ndds = !strcmp(sc, "cache16") ? 16 : 4;
-    int nocache = !strcmp(sc, "nocache");
+    int nocache = !strcmp(sc, "nocache") || !strcmp(sc, "ncfull") || !strcmp(sc, "ncfull2");
     if (!strcmp(sc, "reopen") || !strcmp(sc, "read") || !strcmp(sc, "rdwr")) {
         fid = Hopen(path, DFACC_CREATE, 4);
         Hputelement(fid, 100, 1, pat, 40);
@@ -43,6 +45,8 @@ static void fn_body(const char *path, void *argp)
         Hputelement(fid, 100, 1, pat, 40);
         Hputelement(fid, 100, 2, pat + 40, 60);
         if (strcmp(sc, "cache16")) Hputelement(fid, 100, 3, pat + 100, 10);
+        if (!strcmp(sc, "ncfull2") || !strcmp(sc, "cfull2"))        /* a second, full DD block */
+            for (int i = 4; i < 8; i++) Hputelement(fid, 100, (uint16)i, pat, 7);
         if (!strcmp(sc, "cache")) { Hputelement(fid, 100, 4, pat, 70); Hputelement(fid, 100, 5, pat, 5); }
         if (!strcmp(sc, "attached")) aid = Hstartread(fid, 100, 1);
         if (!strcmp(sc, "two") || !strcmp(sc, "twoatt")) fid2 = Hopen(path, DFACC_RDWR, 0);
@@ -71,8 +75,17 @@ static void fn_body(const char *path, void *argp)
     else if (!strcmp(fn, "HIsync")) r = HIsync(fr);
     else if (!strcmp(fn, "Hsync")) r = Hsync(fid);
     else if (!strcmp(fn, "Hclose")) r = Hclose(fid);
+    else if (!strcmp(fn, "HTInew_dd_block")) r = HTInew_dd_block(fr);
+    else if (!strcmp(fn, "HPgetdiskblock")) r = HPgetdiskblock(fr, (int32)arg, TRUE) == FAIL ? FAIL : SUCCEED;
+    else if (!strcmp(fn, "HTIupdate_dd")) r = HTIupdate_dd(fr, &fr->ddhead->ddlist[arg]);
     armed = 0;
     snprintf(RES->post, sizeof RES->post, "ret=%d", r);
+    /* whatever the function left behind must still be torn down safely (fault injection is off again) */
+    if (strcmp(fn, "Hclose") != 0) {
+        if (aid != FAIL) Hendaccess(aid);
+        if (fid2 != FAIL) Hclose(fid2);
+        Hclose(fid);
+    }
     (void)fid2; (void)aid;
 }
 
